@@ -5,6 +5,8 @@
    enc_form, guards, expected dictionaries): proofs/C07_spec.v. *)
 From Verif Require Import lib.Base lib.Str lib.Utf8 gen.Gen.
 From Verif Require Import model.Stream model.Body model.MultipartRef model.Multipart model.Fields model.BodyPipeline.
+From Verif Require model.Chunked.
+From Verif Require Import lib.PyIntHex.
 From Verif Require Import proofs.C07_fields proofs.C07_spec proofs.C07_ref proofs.C07_roundtrip proofs.C07_collect
   proofs.C07_full proofs.C07_streaming proofs.C07_pipeline proofs.C07_pins.
 
@@ -97,30 +99,59 @@ Theorem C07_roundtrip_streaming :
 Proof. exact roundtrip_streaming. Qed.
 Print Assumptions C07_roundtrip_streaming.
 
-(* THROUGH THE WHOLE PIPELINE MODEL (model/BodyPipeline.v: process).  With
-   CONTENT_TYPE = multipart/form-data; boundary=b (b non-empty, without ; CR LF),
-   Content-Length framing with the exact length, ANY fragmentation schedule of
-   the input stream, ANY max_memfile_size > 0 that the header blocks and text
-   values fit in (the body may be larger and spill to disk), no max_body_size, and
-   ANY json oracle: Request.forms / files / POST succeed and show exactly the
-   submitted fields. *)
+(* THROUGH THE WHOLE PIPELINE MODEL (model/BodyPipeline.v: process), CONTENT-LENGTH
+   FRAMING.  With CONTENT_TYPE = multipart/form-data; boundary=b (b non-empty,
+   without ; CR LF), a CONTENT_LENGTH header that int() reads as the exact length
+   (any spelling), a Transfer-Encoding that does not contain "chunked", ANY
+   fragmentation schedule of the input stream, ANY max_memfile_size > 0 that the
+   header blocks and text values fit in (the body may be larger and spill to
+   disk), no max_body_size, and ANY json oracle: Request.forms / files / POST
+   succeed and show exactly the submitted fields. *)
 Theorem C07_roundtrip_through_pipeline :
-  forall (jk : bytes -> option jkind) (cfg : config) (b : str) (fs : list fld) (sc : list nat) (a : access),
+  forall (jk : bytes -> option jkind) (cfg : config) (b : str) (fs : list fld) (sc : list nat) (a : access)
+         (clraw : option str) (te : str),
     form_access a ->
     b <> [] -> lacks SEMI b -> lacks 10 b -> lacks 13 b -> scalars b ->
     parts_ok (utf8_enc_str b) fs ->
     (0 < c_memfile cfg)%nat -> c_maxbody cfg = None ->
     (total_cost fs <= Z.of_nat (c_memfile cfg))%Z ->
     let body := enc_form (utf8_enc_str b) fs in
+    Chunked.te_chunked te = false ->
+    content_length (mkFraming clraw te) = Some (Z.of_nat (length body)) ->
     exists d,
-      process jk cfg (mp_ctype b) (mkFraming (Z.of_nat (length body)) false) (stream_init body sc) a
-        = Ok (VMultipart d)
+      process jk cfg (mp_ctype b) (mkFraming clraw te) (stream_init body sc) a = Ok (VMultipart d)
       /\ view body d = Some (expected fs).
 Proof. exact roundtrip_pipeline. Qed.
 Print Assumptions C07_roundtrip_through_pipeline.
 
-(* Not proved: the same through chunked framing (C05 relates the chunked reader
-   to the payload; the composition is covered by the correspondence check only). *)
+(* ... AND CHUNKED FRAMING.  For EVERY legal chunked encoding of the encoded form
+   (Chunked.enc_chunked: any partition into chunks, any hex spelling of the sizes
+   — case, leading zeros —, any chunk extensions, any trailer section), a
+   Transfer-Encoding containing "chunked", whatever Content-Length says (absent,
+   or any int), ANY read schedule, every max_memfile_size that holds the longest
+   size line and the in-memory budget: the same result.  Composition of C05_exact
+   (bodyA), the refinement proofs/C12_refine.v, C06 stream_eq_ref (mpB1) and
+   C07_roundtrip. *)
+Theorem C07_roundtrip_through_pipeline_chunked :
+  forall (jk : bytes -> option jkind) (cfg : config) (b : str) (fs : list fld)
+         (cs : list Chunked.chunk) (last : Chunked.chunk) (tail : list N) (sc : list nat) (a : access)
+         (clraw : option str) (te : str),
+    form_access a ->
+    b <> [] -> lacks SEMI b -> lacks 10 b -> lacks 13 b -> scalars b ->
+    parts_ok (utf8_enc_str b) fs ->
+    c_maxbody cfg = None ->
+    (total_cost fs <= Z.of_nat (c_memfile cfg))%Z ->
+    let body := enc_form (utf8_enc_str b) fs in
+    Chunked.te_chunked te = true ->
+    content_length (mkFraming clraw te) <> None ->
+    Forall Chunked.chunk_ok cs -> Chunked.last_ok last -> Chunked.payload_of cs = body ->
+    Forall (fun c => (Chunked.line_len c <= c_memfile cfg)%nat) cs -> (Chunked.line_len last <= c_memfile cfg)%nat ->
+    exists d,
+      process jk cfg (mp_ctype b) (mkFraming clraw te) (stream_init (Chunked.enc_chunked cs last tail) sc) a
+        = Ok (VMultipart d)
+      /\ view body d = Some (expected fs).
+Proof. exact roundtrip_pipeline_chunked. Qed.
+Print Assumptions C07_roundtrip_through_pipeline_chunked.
 
 (* Finding F10 (not repaired): an upload whose file name is empty is delivered in
    forms with value None; the round trip therefore requires fn <> [] (in fld_ok). *)
@@ -143,3 +174,30 @@ Example C07_nonvacuous :
   | _ => False
   end.
 Proof. split; [apply ex_parts_ok|]. split; [apply ex_parts_ok | exact ex_view]. Qed.
+
+(* non-vacuity of the chunked theorem: the example form cut into a 10-byte chunk
+   (size spelled "00a") and the rest (upper-case hex, an extension), a trailer,
+   Transfer-Encoding "gzip, Chunked", a bogus Content-Length 7, 1-3 byte reads *)
+Definition ex_body : bytes := enc_form ex_B ex_fields.
+Definition ex_cs : list Chunked.chunk :=
+  [ Chunked.mkChunk [48; 48; 97]%N [] (firstn 10 ex_body);
+    Chunked.mkChunk (hex_spell 0 [true; true; true] (N.of_nat (length ex_body - 10))) [59; 120; 61; 49]%N
+                    (skipn 10 ex_body) ].
+Definition ex_last : Chunked.chunk := Chunked.mkChunk [48]%N [] [].
+
+Example C07_chunked_nonvacuous :
+  Forall Chunked.chunk_ok ex_cs /\ Chunked.last_ok ex_last /\ Chunked.payload_of ex_cs = ex_body /\
+  match process (fun _ => None) (mkCfg 400 None) (mp_ctype ex_B)
+                (mkFraming (Some [55]%N) [103; 122; 105; 112; 44; 32; 67; 104; 117; 110; 107; 101; 100]%N)
+                (stream_init (Chunked.enc_chunked ex_cs ex_last [88; 58; 121; 13; 10; 13; 10]%N) [0; 2; 1; 0; 2; 2; 0; 1])
+                AFiles with
+  | Ok (VMultipart d) => view ex_body d = Some (expected ex_fields)
+  | _ => False
+  end.
+Proof.
+  split; [|split; [|split]].
+  - repeat constructor; try (vm_compute; discriminate); vm_compute; reflexivity.
+  - repeat split; vm_compute; reflexivity.
+  - vm_compute. reflexivity.
+  - vm_compute. reflexivity.
+Qed.
